@@ -323,7 +323,9 @@ def check_arity_and_rejections(ctx, br, top, rest, guard, final, loops):
             ctx.ob("C13.5", site, ok, "config tokens are line.split() of the raw line of the file", loc=prog.loc(m, e["node"]),
                    msg="the tokens read from a --config file are %s, not the whitespace split of the raw line: a value containing the cut / replaced "
                        "characters means something else in a config file than on the command line" % str(op)[:120])
-    ctx.need(decided, "%s: the statement that adds the tokens of a --config file to `extra` was not found" % site)
+    if not decided and not any(f_.rule == "C13.5" for f_ in ctx.findings):
+        # (when the accumulation itself is already reported - `extra` overwritten - there is nothing more to decide here)
+        raise AnalysisError("%s: the statement that adds the tokens of a --config file to `extra` was not found" % site)
 
 
 def check_parse_numbers(ctx):
@@ -570,6 +572,6 @@ CLAIM = {
              "(e.g. parse_numbers on decimal grids) is not decided.",
     "note": "Trusted: CPython ast, the reference table /verif/tables/options.json (semantic sinks, not source fragments). Several vector-parser "
             "obligations are syntactic patterns over util.parse_numbers as it is written today.",
-    "technique": "static analysis: option-branch extraction from the AST, expression-kind classification, def-use to sinks (constructor keywords / "
+    "technique": "static analysis: C13.3 error exits implied by `len(range) != 2` (statements after the option loop folded, boolq implication); C13.5 config tokens by value; option-branch extraction from the AST, expression-kind classification, def-use to sinks (constructor keywords / "
                  "output attributes), guard and no-return-exit enumeration, registry/help/dispatch set comparison",
 }
